@@ -36,10 +36,6 @@ pub struct Probe {
 
 pub use vl_model::svc::GREETING;
 
-thread_local! {
-    static GREET: std::cell::Cell<bool> = const { std::cell::Cell::new(false) };
-}
-
 pub struct TestImpl {
     pub probe: Probe,
     /// write every byte offered to the upgraded handler back to the peer (process-level checks)
@@ -100,8 +96,6 @@ impl org_verif_test::VarlinkInterface for TestImpl {
         token: String,
     ) -> varlink::Result<()> {
         call.to_upgraded();
-        // a token starting with "greet": the service speaks first, right behind its upgrade reply
-        GREET.with(|g| g.set(token.starts_with("greet")));
         call.reply(token)
     }
 
@@ -115,10 +109,6 @@ impl org_verif_test::VarlinkInterface for TestImpl {
         bufreader: &mut dyn BufRead,
     ) -> varlink::Result<Vec<u8>> {
         self.probe.upgraded_calls.fetch_add(1, Ordering::SeqCst);
-        if GREET.with(|g| g.replace(false)) {
-            call.writer.write_all(GREETING).map_err(varlink::map_context!())?;
-            call.writer.flush().map_err(varlink::map_context!())?;
-        }
         loop {
             let n = {
                 let buf = bufreader.fill_buf().map_err(varlink::map_context!())?;
